@@ -15,7 +15,8 @@ import XmppModel.Model.Muc
       I mediated invitation   N unrelated stanza   ?<bits> Joined() of every channel
       =<a0>.<a1>… Me() of every channel (emitted when it changed)
       %c | %s | %a  (first token, optional) stanza namespace of the session: jabber:client (default),
-        jabber:server, jabber:component:accept; a following `n` (%cn …): a Client without callbacks
+        jabber:server, jabber:component:accept; following flags: `n` (%cn …) a Client without callbacks,
+        `l` callbacks assigned after registration with the multiplexer, `m` one Client serving two sessions
       Ej<c>:<shape> / El<c>:<shape>  the error reply with the given children (harness/c18/reply.go):
         x echoed muc x, w white space, p echoed <priority/>, s echoed <status/>, then the error element
         (e b n a m t g: forms of the error; its namespace is the session's)
@@ -74,10 +75,17 @@ def presAddr (r : List Char) : Option Nat :=
 /-- configuration token: stanza namespace of the session, and whether the application has set the
 callbacks (`n`: it has not — the bookkeeping is the same, nothing is called) -/
 def cfgNs (tok : String) : Option (String × Bool) :=
-  if tok = "%c" then some (nsClient, true) else if tok = "%s" then some (nsServer, true)
-  else if tok = "%a" then some (nsAccept, true)
-  else if tok = "%cn" then some (nsClient, false) else if tok = "%sn" then some (nsServer, false)
-  else if tok = "%an" then some (nsAccept, false) else none
+  -- %<ns><flags>: n no callbacks; l callbacks assigned after the Client was registered with the
+  -- multiplexer; m the Client serves two live sessions (channel c on session c%2).  Neither l nor m
+  -- changes anything of the bookkeeping or of the callbacks: the registration table is keyed by the
+  -- occupant address alone and the callback fields are read when a stanza is handled
+  match tok.toList with
+  | '%' :: k :: flags =>
+    let ns := if k = 'c' then some nsClient else if k = 's' then some nsServer else if k = 'a' then some nsAccept else none
+    if flags.all (fun c => c = 'n' || c = 'l' || c = 'm') && flags.length ≤ 3 then
+      ns.map fun n => (n, !flags.contains 'n')
+    else none
+  | _ => none
 
 /-- children of an error reply of the given shape on a stream whose stanza namespace is `ns` -/
 def shapeChild (ns : String) (c : Char) : Option RChild :=
